@@ -387,7 +387,32 @@ def walk_no_nested(node: ast.AST) -> Iterator[ast.AST]:
         todo.extend(ast.iter_child_nodes(n))
 
 
-def walk_body(fi: FuncInfo, nested: bool = False) -> Iterator[ast.AST]:
+FOLLOW_NEW_HELPERS = False
+
+
+def new_helpers_called(fi: FuncInfo) -> List[FuncInfo]:
+    """Functions of fi's module that the reference tree does not have (an 'extract function' refactoring creates them) and that fi calls by name."""
+    from . import report as _report
+    if not _report.CURRENT_DRIFT:
+        return []
+    mod = fi.module
+    new = {q: f for q, f in mod.functions.items() if _report.CURRENT_DRIFT.get(f"{mod.name}.{q}", 0) is None and f is not fi}
+    if not new:
+        return []
+    out = []
+    for st in fi.body:
+        for n in ast.walk(st):
+            if isinstance(n, ast.Call):
+                name = n.func.id if isinstance(n.func, ast.Name) else (n.func.attr if isinstance(n.func, ast.Attribute) and isinstance(n.func.value, ast.Name) and n.func.value.id in ("self", "cls") else None)
+                for q, f in new.items():
+                    if name is not None and (q == name or q.endswith("." + name)) and f not in out:
+                        out.append(f)
+    return out
+
+
+def walk_body(fi: FuncInfo, nested: bool = False, follow_new: Optional[bool] = None) -> Iterator[ast.AST]:
+    """Nodes of fi's body.  Statements of helper functions that did not exist in the reference tree and that fi calls are included too (one level):
+    a rule that looks for a construct 'in f' still finds it after the construct was moved into an extracted helper."""
     for st in fi.body:
         if nested:
             yield from ast.walk(st)
@@ -395,6 +420,13 @@ def walk_body(fi: FuncInfo, nested: bool = False) -> Iterator[ast.AST]:
             if isinstance(st, (ast.FunctionDef, ast.AsyncFunctionDef, ast.ClassDef)):
                 continue
             yield from walk_no_nested(st)
+    if FOLLOW_NEW_HELPERS if follow_new is None else follow_new:
+        for h in new_helpers_called(fi):
+            for st in h.body:
+                if nested:
+                    yield from ast.walk(st)
+                elif not isinstance(st, (ast.FunctionDef, ast.AsyncFunctionDef, ast.ClassDef)):
+                    yield from walk_no_nested(st)
 
 
 def calls_in(fi_or_node, nested: bool = False) -> Iterator[ast.Call]:
